@@ -122,8 +122,8 @@ def run_retry(case):
                     r = reqs[arg]
                     if r.get('on_answer_of') is not None:
                         continue    # issued by the port callback, not by the time line
-                    if r.get('after') is not None and r['after'] not in dispatched:
-                        continue    # only meaningful once the earlier request with the same expectation has been answered
+                    if r.get('after') is not None and not (r['after'] in dispatched and dispatched[r['after']] < s.now - EPS):
+                        continue    # only meaningful once the earlier request with the same expectation has been answered (at an earlier instant)
 
                     def do_send(arg=arg, r=r):
                         pk = CRTPPacket()
@@ -212,6 +212,8 @@ def run_retry(case):
             t_ans = dispatched.get(i)
             stop = min(x for x in (t_close, t_ans if t_ans is not None else 1e18))
             if not case['needs_resending'] or not r['expected']:
+                if not times and t0 >= t_close - EPS:
+                    continue    # issued (from the dispatcher's callback) at the very instant the link went down
                 if len(times) != 1:
                     out.fail('retry:reliable-link-retransmits' if not case['needs_resending'] else 'retry:no-expectation-retransmits',
                              '%s: request %d transmitted at %r' % (desc, i, [round(x, 4) for x in times]))
